@@ -1,0 +1,27 @@
+//go:build verif
+
+package updog
+
+// Verification hooks, enabled with -tags verif. They let a replay harness
+// (a) substitute the value of the (column,value) hash for chosen inputs, so that
+// counterexamples found for an arbitrary 64-bit hash value can be run against the real
+// code, and (b) observe the points at which the writers have committed a transaction.
+
+// VerifHashOverride, when set, may supply the hash of column NUL value.
+var VerifHashOverride func(b []byte) (uint64, bool)
+
+// VerifPoint, when set, is called with the name of each commit point reached.
+var VerifPoint func(name string)
+
+func verifHashOverride(k, v string) (uint64, bool) {
+	if VerifHashOverride == nil {
+		return 0, false
+	}
+	return VerifHashOverride(append(append([]byte(k), 0), []byte(v)...))
+}
+
+func verifPoint(name string) {
+	if VerifPoint != nil {
+		VerifPoint(name)
+	}
+}
